@@ -227,7 +227,10 @@ impl <T: ArrayElement> ArrayJoining<T> for Array<T> {
             arrs.validate_stack_shapes(0, 0)?;
 
             let mut new_shape = arrs[0].get_shape()?;
-            if new_shape.len() == 1 { new_shape.insert_at(0, arrs.len()); }
+            if new_shape.len() == 1 {
+                if arrs.iter().any(|a| a.shape != new_shape) { return Err(ArrayError::ConcatenateShapeMismatch) }
+                new_shape.insert_at(0, arrs.len());
+            }
             else { new_shape[0] = arrs.iter().fold(0, |a, b| a + b.shape[0]); }
 
             match Self::concatenate(arrs, Some(0)) {
